@@ -31,3 +31,16 @@ type MessageAttitude struct {
 
 // GetID implements message.Message.
 func (*MessageAttitude) GetID() uint32 { return 30 }
+
+// MessageParamSet is not the standard PARAM_SET: the same five fields under the same names, but parameter ids
+// of up to 32 characters and the type as a plain byte in an extension.
+type MessageParamSet struct {
+	TargetSystem    uint8
+	TargetComponent uint8
+	ParamId         string `mavlen:"32"`
+	ParamValue      float32
+	ParamType       uint8 `mavext:"true"`
+}
+
+// GetID implements message.Message.
+func (*MessageParamSet) GetID() uint32 { return 23 }
